@@ -1,12 +1,12 @@
 package main
 
 import (
-	"reflect"
-	"fmt"
-	"sync"
 	stdecdsa "crypto/ecdsa"
 	stded "crypto/ed25519"
+	"fmt"
 	"math/rand"
+	"reflect"
+	"sync"
 	"time"
 
 	"github.com/go-i2p/common/data"
@@ -463,4 +463,3 @@ func init() {
 		return Res{"setup": true, "seq_good": good(seq), "nruns": n * reps, "nfail": nfail, "panics": panics, "example": example}
 	})
 }
-
